@@ -362,6 +362,13 @@ func codecValue(val string, d *driver, k int) *big.Int {
 		return new(big.Int).Sub(two256, one)
 	case "2^255":
 		return new(big.Int).Lsh(one, 255)
+	case "2^63", "2^64-1", "2^64", "2^127", "2^128-1", "2^191", "2^192-1": // 64-bit limb boundaries and half-limb values
+		e := map[string]uint{"2^63": 63, "2^64-1": 64, "2^64": 64, "2^127": 127, "2^128-1": 128, "2^191": 191, "2^192-1": 192}[val]
+		v := new(big.Int).Lsh(one, e)
+		if val[len(val)-2:] == "-1" {
+			v.Sub(v, one)
+		}
+		return v
 	case "h-1", "h", "h+1": // around (r-1)/2
 		h := new(big.Int).Rsh(new(big.Int).Sub(r, one), 1)
 		return h.Add(h, big.NewInt(int64(map[string]int{"h-1": -1, "h": 0, "h+1": 1}[val])))
